@@ -226,3 +226,24 @@ PROPS["C17"] = {
     "assumptions": ["bitmap dimensions fit i16 (documented precondition of path())"],
 }
 NONTRIVIAL["C17"] = lambda r: r.split()[0] in ("path", "pixels", "unicode") and int(r.split()[2].split(":")[0]) >= 2
+
+RS_RULE = "cases: received words for all 48 sizes: C03: zero codeword + every single error position (sampled per size in quick, all in thorough), random codewords with <= t errors per block in every region (anywhere, data part, EC part, tail), exactly t errors in every block, bursts, all double-error position pairs of 10x10 (values sampled); C09/C05: t+1..t+3 errors in one block, heavy damage, random words, words whose first j syndromes vanish, unit words, 20000 random words of the smallest sizes; non-trivial = distinct non-zero received words"
+PROPS["C03"] = {
+    "lean": [], "gens": ["c03"], "level": "exploration", "release": True, "rule": RS_RULE,
+    "explanation": "For every error pattern of weight <= floor(k/2) per block in the sweep the implementation must return Ok and the original codeword vector (compared on the real code); the Lean model of the decoder (Levinson-Durbin, Chien, Bjorck-Pereyra, every panic site explicit) is compared with the implementation on every case incl. error variants.",
+    "level_text": "Exploration / fault enumeration of error patterns with model correspondence; completeness of Levinson-Durbin is not proved.",
+    "level_note": "Trusted: harness; encode_error (C06-proved) provides the codewords; by linearity the zero codeword covers all data vectors for the decoder's corrections.",
+    "technique": "fault enumeration of error patterns within the correction radius + Lean model correspondence",
+    "assumptions": [],
+}
+PROPS["C09"] = {
+    "lean": [], "gens": ["c09"], "level": "exploration", "release": True, "rule": RS_RULE,
+    "explanation": "Whenever the implementation answers Ok for a received word of the sweep (mostly words beyond the correction radius), the vector it leaves behind must have zero table-free syndromes in every interleaved block (DM/Spec/GF256.lean oracle); model correspondence on every case.",
+    "level_text": "Exploration with specification oracle (independent GF(256) syndromes) on words beyond the radius.",
+    "level_note": "Trusted: Spec/GF256.lean, harness.",
+    "technique": "specification oracle (zero syndromes in table-free arithmetic) on every successful decode + Lean model correspondence",
+    "assumptions": [],
+}
+NONTRIVIAL["C03"] = lambda r: r.split()[0] == "rsdec" and r.split()[2].strip("0") != ""
+NONTRIVIAL["C09"] = NONTRIVIAL["C03"]
+PROPS["C05"]["gens"] = ["c05d", "c05r"]
